@@ -19,7 +19,7 @@ cmake --build "$WT/_b" 2>&1 | tail -2
 if [ -n "$RX" ]; then ctest --test-dir "$WT/_b" -R "$RX" --timeout 900 2>&1 | tail -4; else ctest --test-dir "$WT/_b" -j6 --timeout 900 2>&1 | tail -4; fi
 DEMO=$(ls "$MD"/demo.c "$MD"/demo.cpp 2>/dev/null | head -1)
 CC=gcc; case "$DEMO" in *.cpp) CC=g++;; esac
-$CC "$DEMO" -I"$WT/src" -I"$WT/_b/src" -L"$WT/_b/src" -lplibsys -lpthread -Wl,-rpath,"$WT/_b/src" -o "$WT/_b/demo" && { timeout 300 "$WT/_b/demo" | tail -3; echo "DEMO-WITH-CHANGE rc=${PIPESTATUS[0]}"; }
+$CC "$DEMO" -I"$WT/src" -I"$WT/_b/src" -L"$WT/_b/src" -lplibsys -lpthread -lm -ldl -lrt -Wl,-rpath,"$WT/_b/src" -o "$WT/_b/demo" && { timeout 300 "$WT/_b/demo" | tail -3; echo "DEMO-WITH-CHANGE rc=${PIPESTATUS[0]}"; }
 # run the checks from a private clone of /verif so that evidence/ and lean/PV/Generated of /verif are not touched
 VER=${CONFIRM_VER:-/tmp/confirm/verif}
 if [ -d "$VER/.git" ]; then git -C "$VER" pull -q --ff-only /verif main 2>/dev/null || { rm -rf "$VER"; git clone -q /verif "$VER"; }; else git clone -q /verif "$VER"; fi
@@ -29,6 +29,6 @@ for P in $PROP; do
   echo "CHECK-$P rc=${PIPESTATUS[0]}"
 done
 git checkout -- . && cmake --build "$WT/_b" 2>&1 | tail -1
-$CC "$DEMO" -I"$WT/src" -I"$WT/_b/src" -L"$WT/_b/src" -lplibsys -lpthread -Wl,-rpath,"$WT/_b/src" -o "$WT/_b/demo" && { timeout 300 "$WT/_b/demo" | tail -2; echo "DEMO-WITHOUT-CHANGE rc=${PIPESTATUS[0]}"; }
+$CC "$DEMO" -I"$WT/src" -I"$WT/_b/src" -L"$WT/_b/src" -lplibsys -lpthread -lm -ldl -lrt -Wl,-rpath,"$WT/_b/src" -o "$WT/_b/demo" && { timeout 300 "$WT/_b/demo" | tail -2; echo "DEMO-WITHOUT-CHANGE rc=${PIPESTATUS[0]}"; }
 cd /; git -C /repo worktree remove --force "$WT"
 echo "RESULT done"
